@@ -1,4 +1,5 @@
-import Proofs.Uri.NormalForm
+import Proofs.Uri.IpText
+import Proofs.Uri.Ip4
 /-!
 # C16 — CoAP URIs and Uri-* options convert into each other without loss
 
@@ -74,28 +75,60 @@ theorem C16_degenerate_lists_collapse :
 
 -- 3b. URI → options → URI ------------------------------------------------------------------
 
-/-- **Full statement** (kept visible; it is *false* as it stands, see below): for every text
-`u` that `set_request_uri` accepts with options `o`, `get_request_uri` composes a text `u'`
-which is accepted again, decomposes to the same options as `u`, and is a fixed point.
+/-- **URI → options → URI, for every accepted text.**  For every byte string `u` that
+`set_request_uri` accepts with options `o`, `get_request_uri` composes a text `u'` which is
+accepted again, and
 
-**Proved** for every accepted byte string `u` except two classes, spelled out as hypotheses:
-* `hname` — the Uri-Host value does not spell an IP address (`coap://%31.2.3.4/`,
-  `coap://%3A%3A1/`, `coap://@[::1]/`).  There the composed URI is `coap://1.2.3.4/` resp.
-  `coap://[::1]/`, whose host is an IP literal, so the host moves from Uri-Host to the remote:
-  same destination, different options (RFC 7252 §6.4/§6.5 behave the same way).  The second
-  example below exhibits the difference on the model; the harness oracle compares the
-  effective destination on this class.
-* `hbr` — a `[` in the authority is its first character and the only one (`coap://a[::1]/`
-  is accepted by `urllib` but is no RFC 3986 authority).
+* either (`NormalForm`) `u'` decomposes to the same scheme, Uri-Host, Uri-Port, Uri-Path, Uri-Query
+  and port — for IP literals to the identical message state — and recomposes to itself,
+* or the Uri-Host value `h` spells an IP literal (`coap://%31.2.3.4/`, `coap://%3A%3A01/`: registered
+  names whose *decoded* value looks like a dotted quad or an IPv6 text that `_quote_host` lets pass).
+  Then (`MovedToRemote`) `u'` has that literal for a host (`coap://1.2.3.4/`, `coap://[::01]/`), so
+  it decomposes without Uri-Host; scheme, port, Uri-Path and Uri-Query are the same, the remote is
+  the address the option spelled (normalised by `ipaddress`), and from there on nothing moves.
 
-`laws` are the assumptions about Python's `ipaddress` (not modelled).  What is established:
-`u'` is composed, accepted, has the same scheme, Uri-Host, Uri-Port, Uri-Path, Uri-Query and
-port; for IP literals the whole message state is identical; and `u'` recomposes to itself. -/
-theorem C16_uri_opts_uri_partial (ip : IpOracle) (laws : IpLaws ip) (u : Bytes) (hu : u.wf)
-    (o : Opts) (hok : setRequestUri ip u = .ok o) (hbr : BracketLeads u)
+The literal reading "decomposes to the same options" is *false* on the second class and no fix
+can make it true: RFC 7252 §6.5 step 4 composes the option value as it stands and §6.4 step 5
+never makes a Uri-Host out of an IP literal (second example below).  It is the only such class:
+the other one the first version of this theorem excluded (`hbr : BracketLeads u`, a `[` that does
+not lead the authority, `coap://a[::1]/`) is rejected since the fix (`C16_literal_is_whole_host`).
+
+`laws` are the assumptions about Python's `ipaddress` (not modelled); none of them says anything
+about what a zone identifier contains. -/
+theorem C16_uri_opts_uri (ip : IpOracle) (laws : IpLaws ip) (u : Bytes) (hu : u.wf)
+    (o : Opts) (hok : setRequestUri ip u = .ok o) :
+    (∃ u' o', NormalForm ip o u' o') ∨
+    (∃ h u' o', o.uriHost = some h ∧ ¬ NotIpText ip h ∧ MovedToRemote ip o h u' o') :=
+  uri_opts_uri_total laws hu hok
+
+/-- The first alternative on its own (this is the former `C16_uri_opts_uri_partial` without its
+hypothesis `hbr`): when the Uri-Host value does not spell an IP literal — in particular when
+there is no Uri-Host, or it is an IPv6 text whose zone identifier holds a delimiter — the
+composed URI decomposes to the same options and is a fixed point. -/
+theorem C16_uri_opts_uri_exact (ip : IpOracle) (laws : IpLaws ip) (u : Bytes) (hu : u.wf)
+    (o : Opts) (hok : setRequestUri ip u = .ok o)
     (hname : ∀ h, o.uriHost = some h → NotIpText ip h) :
     ∃ u' o', NormalForm ip o u' o' :=
-  normalForm_of_accepted laws hu hok hbr hname
+  normalForm_of_accepted laws hu hok hname
+
+/-- **What is composed is URI text** (RFC 3986 §2: unreserved, sub-delims, `: / ? # [ ] @`, `%`
+— no blank, control, quote, non-ASCII byte), authority and bracketed literal included: for every
+canonical non-degenerate option set, and for the options of every accepted text whatever that
+text contained.  This is what the zone-identifier fixes bought: before them `_quote_host` and the
+remote of `coap://[::1%a b]/` handed any zone identifier back verbatim. -/
+theorem C16_composed_is_uri_text (ip : IpOracle) (laws : IpLaws ip) :
+    (∀ r : Resource, r.WF ip →
+      ∃ u, getRequestUri ip (r.toOpts ip) = some u ∧ ∀ c ∈ u, isUriChar c = true) ∧
+    (∀ u : Bytes, u.wf → ∀ o, setRequestUri ip u = .ok o →
+      ∃ u', getRequestUri ip o = some u' ∧ ∀ c ∈ u', isUriChar c = true) := by
+  constructor
+  · intro r h
+    exact ⟨_, getRequestUri_toOpts h,
+      render_uriChars h.scheme (toOpts_facts h).uriChars h.path h.query⟩
+  · intro u hu o hok
+    rcases uri_opts_uri_total laws hu hok with ⟨u', o', hnf⟩ | ⟨h, u', o', _, _, hm⟩
+    · exact ⟨u', hnf.composed, hnf.uriText⟩
+    · exact ⟨u', hm.composed, hm.uriText⟩
 
 -- 4. distinct resources never collapse ------------------------------------------------------
 
@@ -197,14 +230,17 @@ theorem C16_reject_unsplittable (ip : IpOracle) (u : Bytes) (h : urlsplit ip u =
 
 /-- The table of syntactic defects, in the order the code tests them.  For a text that splits
 into `p`: a fragment → Malformed; else no scheme → Incomplete; else a non-CoAP scheme → the
-text becomes Proxy-Uri; else each of: no host, user info, a path/query/host escape that is not
-UTF-8, a port that is not a number in 0..65535, an invalid IP literal → Malformed. -/
+text becomes Proxy-Uri; else each of: no host, user info, a bracket in the authority that is not
+part of a leading `[literal]` with unreserved zone identifier followed by nothing or `:`, a
+path/query/host escape that is not UTF-8, a port that is not a number in 0..65535, an invalid IP
+literal → Malformed. -/
 theorem C16_rejection_table (ip : IpOracle) (u : Bytes) (p : Parsed) (hsplit : urlsplit ip u = some p) :
     (p.fragment ≠ [] → setRequestUri ip u = .malformed) ∧
     (p.fragment = [] → p.scheme = [] → setRequestUri ip u = .incomplete) ∧
     (p.fragment = [] → p.scheme ≠ [] → p.scheme ∉ coapSchemes → setRequestUri ip u = .proxy) ∧
     (p.fragment = [] → p.scheme ∈ coapSchemes →
-      (hostnameOf p.netloc = none ∨ hasUserinfo p.netloc = true ∨ decodePath p.path = none ∨
+      (hostnameOf p.netloc = none ∨ hasUserinfo p.netloc = true ∨ literalOk p.netloc = false ∨
+        decodePath p.path = none ∨
         decodeQuery p.query = none ∨ portOf p.netloc = none ∨ undecidedHostinfo ip p.netloc = none ∨
         (∃ hn, hostnameOf p.netloc = some hn ∧
           (p.netloc.head? == some 91 || ip4Looking hn) = false ∧ unquoteStrict hn = none)) →
@@ -230,90 +266,98 @@ theorem C16_rejection_table (ip : IpOracle) (u : Bytes) (p : Parsed) (hsplit : u
       by_cases hu : hasUserinfo p.netloc = true
       · simp [hu]
       · simp only [hu, Bool.false_eq_true, ↓reduceIte]
-        cases hpath : decodePath p.path with
-        | none => rfl
-        | some path =>
-          cases hquery : decodeQuery p.query with
+        by_cases hlo : literalOk p.netloc = true
+        · simp only [hlo, Bool.not_true, Bool.false_eq_true, ↓reduceIte]
+          cases hpath : decodePath p.path with
           | none => rfl
-          | some query =>
-            simp only
-            cases hport : portOf p.netloc with
+          | some path =>
+            cases hquery : decodeQuery p.query with
             | none => rfl
-            | some port =>
+            | some query =>
               simp only
-              cases hund : undecidedHostinfo ip p.netloc with
+              cases hport : portOf p.netloc with
               | none => rfl
-              | some hostinfo =>
+              | some port =>
                 simp only
-                rcases hd with h | h | h | h | h | h | ⟨hn', h1, h2, h3⟩
-                · rw [hhn] at h; cases h
-                · exact absurd h hu
-                · rw [hpath] at h; cases h
-                · rw [hquery] at h; cases h
-                · rw [hport] at h; cases h
-                · rw [hund] at h; cases h
-                · rw [hhn] at h1; cases h1
-                  rw [if_neg (by simp [h2])]
-                  simp [h3]
+                cases hund : undecidedHostinfo ip p.netloc with
+                | none => rfl
+                | some hostinfo =>
+                  simp only
+                  rcases hd with h | h | h | h | h | h | h | ⟨hn', h1, h2, h3⟩
+                  · rw [hhn] at h; cases h
+                  · exact absurd h hu
+                  · rw [hlo] at h; cases h
+                  · rw [hpath] at h; cases h
+                  · rw [hquery] at h; cases h
+                  · rw [hport] at h; cases h
+                  · rw [hund] at h; cases h
+                  · rw [hhn] at h1; cases h1
+                    rw [if_neg (by simp [h2])]
+                    simp [h3]
+        · simp [hlo]
 
 /-- Conversely, an accepted text has none of the defects. -/
 theorem C16_accepted_has_no_defect (ip : IpOracle) (u : Bytes) (o : Opts)
     (h : setRequestUri ip u = .ok o) :
     ∃ p, urlsplit ip u = some p ∧ p.fragment = [] ∧ p.scheme ∈ coapSchemes ∧ o.scheme = p.scheme ∧
       (∃ hn, hostnameOf p.netloc = some hn) ∧ hasUserinfo p.netloc = false ∧
+      literalOk p.netloc = true ∧
       decodePath p.path = some o.path ∧ decodeQuery p.query = some o.query ∧
       (∃ port, portOf p.netloc = some port) ∧ undecidedHostinfo ip p.netloc = some o.hostinfo ∧
       o.uriPort = none := by
-  unfold setRequestUri at h
-  cases hsplit : urlsplit ip u with
-  | none => rw [hsplit] at h; cases h
-  | some p =>
-    rw [hsplit] at h
-    simp only at h
-    refine ⟨p, rfl, ?_⟩
-    unfold fromParsed at h
-    by_cases hf : p.fragment = []
-    · simp only [hf, ne_eq, not_true_eq_false, ↓reduceIte] at h
-      by_cases hs : p.scheme = []
-      · simp [hs] at h
-      · simp only [hs, ↓reduceIte] at h
-        by_cases hc : p.scheme ∈ coapSchemes
-        · have hc' : coapSchemes.contains p.scheme = true := by simpa using hc
-          simp only [hc', Bool.not_true, Bool.false_eq_true, ↓reduceIte] at h
-          cases hhn : hostnameOf p.netloc with
-          | none => simp [hhn] at h
-          | some hn =>
-            simp only [hhn] at h
-            by_cases hu : hasUserinfo p.netloc = true
-            · simp [hu] at h
-            · simp only [hu, Bool.false_eq_true, ↓reduceIte] at h
-              cases hpath : decodePath p.path with
-              | none => simp [hpath] at h
-              | some path =>
-                cases hquery : decodeQuery p.query with
-                | none => simp [hpath, hquery] at h
-                | some query =>
-                  simp only [hpath, hquery] at h
-                  cases hport : portOf p.netloc with
-                  | none => simp [hport] at h
-                  | some port =>
-                    simp only [hport] at h
-                    cases hund : undecidedHostinfo ip p.netloc with
-                    | none => simp [hund] at h
-                    | some hostinfo =>
-                      simp only [hund] at h
-                      have hmem : p.scheme ∈ coapSchemes := hc
-                      split at h
-                      · injection h with h; subst h
-                        exact ⟨hf, hmem, rfl, ⟨hn, rfl⟩, by simpa using hu, rfl, rfl, ⟨port, rfl⟩,
-                          rfl, rfl⟩
-                      · split at h
-                        · cases h
-                        · injection h with h; subst h
-                          exact ⟨hf, hmem, rfl, ⟨hn, rfl⟩, by simpa using hu, rfl, rfl,
-                            ⟨port, rfl⟩, rfl, rfl⟩
-        · simp [hc] at h
-    · simp [hf] at h
+  obtain ⟨p, hsplit, A⟩ := setRequestUri_ok_inv h
+  obtain ⟨hn, hhn, _⟩ := A.host
+  exact ⟨p, hsplit, A.fragment, A.scheme, A.oscheme, ⟨hn, hhn⟩, A.userinfo, A.literal, A.path,
+    A.query, A.port, A.hostinfo, A.uriPort⟩
+
+/-- **An IP literal in brackets is the whole host** (new with the fix that rejects
+`coap://a[::1]/`, `coap://evil.example[::1]:7/x`, `coap://[::1]x:7/`): when the authority of an
+accepted text contains a bracket at all, it reads `[` t `]` rest with no bracket inside `t`,
+`rest` empty or starting with `:` (it is then the port, a number: `C16_accepted_has_no_defect`),
+and an unreserved zone identifier (`coap://[::1%a b]/` is rejected); the host is that literal —
+no Uri-Host option — and it is what the remote is made of. -/
+theorem C16_literal_is_whole_host (ip : IpOracle) (u : Bytes) (o : Opts) (p : Parsed)
+    (hok : setRequestUri ip u = .ok o) (hsplit : urlsplit ip u = some p)
+    (hbr : 91 ∈ p.netloc ∨ 93 ∈ p.netloc) :
+    ∃ t rest, p.netloc = [91] ++ t ++ [93] ++ rest ∧ 91 ∉ t ∧ 93 ∉ t ∧
+      (rest = [] ∨ rest.head? = some 58) ∧ zoneOk t = true ∧
+      o.uriHost = none ∧ hostnameOf p.netloc = some (lowerUntilPct t) := by
+  obtain ⟨p', hsplit', A⟩ := setRequestUri_ok_inv hok
+  rw [hsplit] at hsplit'
+  cases hsplit'
+  exact literal_shape (urlsplit_facts hsplit).brackets A hbr
+
+/-- **The IPv4-literal test is RFC 3986's `IPv4address`** (new with the fix that makes
+`01.2.3.4` a name): `IsIPv4address` / `decOctet` are written from the grammar of RFC 3986 §3.2.2
+(`Proofs/Uri/Ip4.lean`), `ip4Looking` is the model of the test in `set_request_uri`. -/
+theorem C16_ip4_literal_is_rfc3986 (h : Bytes) : ip4Looking h = true ↔ IsIPv4address h :=
+  ip4Looking_iff h
+
+/-- RFC 7252 §6.4 step 5 on every accepted text: the Uri-Host option is left out exactly when
+the host is an IP literal in brackets or an `IPv4address` of RFC 3986; otherwise it is the
+percent-decoded, ASCII-lower-cased host name. -/
+theorem C16_uri_host_omitted_iff_ip_literal (ip : IpOracle) (u : Bytes) (o : Opts)
+    (hok : setRequestUri ip u = .ok o) :
+    ∃ p hn, urlsplit ip u = some p ∧ hostnameOf p.netloc = some hn ∧
+      (o.uriHost = none ↔ (p.netloc.head? = some 91 ∨ IsIPv4address hn)) ∧
+      (o.uriHost ≠ none → ∃ h, unquoteStrict hn = some h ∧ o.uriHost = some (asciiLower h)) := by
+  obtain ⟨p, hsplit, A⟩ := setRequestUri_ok_inv hok
+  obtain ⟨hn, hhn, hcase⟩ := A.host
+  refine ⟨p, hn, hsplit, hhn, ?_, ?_⟩
+  · rw [← ip4Looking_iff]
+    rcases hcase with ⟨hl, hnone⟩ | ⟨hl, h, _, hsome⟩
+    · simp only [Bool.or_eq_true, beq_iff_eq] at hl
+      exact ⟨fun _ => hl, fun _ => hnone⟩
+    · simp only [Bool.or_eq_false_iff, beq_eq_false_iff_ne, ne_eq] at hl
+      constructor
+      · intro hnone; rw [hsome] at hnone; cases hnone
+      · rintro (h1 | h1)
+        · exact absurd h1 hl.1
+        · rw [hl.2] at h1; cases h1
+  · intro hne
+    rcases hcase with ⟨_, hnone⟩ | ⟨_, h, hdec, hsome⟩
+    · exact absurd hnone hne
+    · exact ⟨h, hdec, hsome⟩
 
 /-- A text without any `:` has no scheme: it is never accepted and never taken for a
 Proxy-Uri; it is rejected as Incomplete, or as Malformed when it also carries a fragment or
@@ -348,41 +392,128 @@ theorem C16_no_colon_rejected (ip : IpOracle) (u : Bytes) (h : 58 ∉ u) :
 def exIp : IpOracle := { norm6 := fun t => if t = [58, 58, 49] then some t else none }
 
 theorem exIp_laws : IpLaws exIp := by
-  refine ⟨?_, ?_, ?_⟩ <;> intro x y h <;> simp only [exIp] at h <;> split at h
+  refine ⟨?_, ?_, ?_, ?_, ?_⟩ <;> intro x y h <;> simp only [exIp] at h <;> split at h
   · injection h with h; subst h; rename_i hx; subst hx
     exact ⟨by simp [exIp], by decide, by decide, by decide, by decide⟩
   · cases h
-  · injection h with h; subst h; exact fun c hc => Or.inl hc
+  · injection h with h; subst h; rename_i hx; subst hx; decide
+  · cases h
+  · injection h with h; subst h; rename_i hx; subst hx; decide
+  · cases h
+  · injection h with h; subst h; rfl
   · cases h
   · injection h with h; rename_i hx; subst hx; decide
   · cases h
 
+/-- an oracle that, like `ipaddress`, takes `::1` with *any* text for a zone identifier -/
+def exIpZ : IpOracle := { norm6 := fun t => if before 37 t = [58, 58, 49] then some t else none }
+
+theorem lowerUntilPct_split (s : Bytes) :
+    lowerUntilPct s = (before 37 s).map lowerChar ++ dropUntil (· == 37) s := by
+  induction s with
+  | nil => rfl
+  | cons x r ih =>
+    simp only [lowerUntilPct, before, takeUntil, dropUntil, beq_iff_eq]
+    split
+    · simp
+    · simp only [List.map_cons, List.cons_append, List.cons.injEq, true_and]
+      exact ih
+
+/-- ... and still satisfies every assumption the theorems make about `ipaddress`: none of them
+restricts the zone identifier -/
+theorem exIpZ_laws : IpLaws exIpZ := by
+  have key : ∀ x y, exIpZ.norm6 x = some y → y = x ∧ before 37 x = [58, 58, 49] := by
+    intro x y h
+    simp only [exIpZ] at h
+    split at h
+    · rename_i hx; injection h with h; exact ⟨h.symm, hx⟩
+    · cases h
+  have shape : ∀ x, before 37 x = [58, 58, 49] → x = [58, 58, 49] ++ dropUntil (· == 37) x := by
+    intro x hx
+    have := takeUntil_append_dropUntil (· == 37) x
+    rw [show takeUntil (· == 37) x = before 37 x from rfl, hx] at this
+    exact this.symm
+  refine ⟨?_, ?_, ?_, ?_, ?_⟩ <;> intro x y h <;> obtain ⟨rfl, hx⟩ := key x y h
+  · have hs := shape y hx
+    refine ⟨by simp [exIpZ, hx], ?_, ?_, ?_, ?_⟩
+    · rw [hs]; simp
+    · rw [lowerUntilPct_split, hx]
+      exact hs.symm
+    · rw [hs]; simp
+    · rw [hs]; simp
+  · rw [hx]; decide
+  · rw [hx]; decide
+  · rfl
+  · rw [shape y hx]; simp
+
+/-- `::1%a?b` — `ipaddress` (here: `exIpZ`) takes it for an address, `_quote_host` does not: the
+zone identifier holds a delimiter.  It is a *name* in the sense of `NameOk`, so
+`C16_opts_uri_opts` and `C16_distinct_stay_distinct` cover it: it composes to
+`coap://%3A%3A1%25a%3Fb/` and comes back as the same Uri-Host. -/
+def exHostile : Bytes := [58, 58, 49, 37, 97, 63, 98]
+
+def exHostileRes : Resource :=
+  { scheme := [99,111,97,112], host := .name exHostile, port := none, path := [], query := [] }
+
+example : (exIpZ.norm6 exHostile).isSome = true ∧ passesAsAddress exIpZ exHostile = false ∧
+    passesAsAddress exIpZ [58, 58, 49, 37, 97, 98] = true := by decide
+
+example : exHostileRes.WF exIpZ :=
+  { scheme := by decide
+    host := ⟨by decide, by decide, by decide, by decide, by decide, by decide⟩
+    port := by intro p hp; cases hp
+    path := ⟨by decide, by decide⟩
+    query := ⟨by decide, by decide⟩ }
+
+example : getRequestUri exIpZ (exHostileRes.toOpts exIpZ) = some
+    [99,111,97,112,58,47,47,37,51,65,37,51,65,49,37,50,53,97,37,51,70,98,47] := by decide
+
+/-- the new entries of the rejection table on concrete texts: `coap://a[::1]/`,
+`coap://[::1]x:7/`, `coap://[::1%a b]/` are malformed, `coap://[::1%ab]/` is not -/
+example : setRequestUri exIpZ [99,111,97,112,58,47,47,97,91,58,58,49,93,47] = .malformed := by decide
+example : setRequestUri exIpZ [99,111,97,112,58,47,47,91,58,58,49,93,120,58,55,47] = .malformed := by
+  decide
+example : setRequestUri exIpZ [99,111,97,112,58,47,47,91,58,58,49,37,97,32,98,93,47] = .malformed := by
+  decide
+example : setRequestUri exIpZ [99,111,97,112,58,47,47,91,58,58,49,37,97,98,93,47]
+    = .ok { scheme := [99,111,97,112], hostinfo := [91,58,58,49,37,97,98,93], uriHost := none,
+            uriPort := none, path := [], query := [] } := by decide
+
+/-- dec-octet boundaries: `1.2.3.255`, `0.0.0.0` are IPv4 literals; `1.2.3.256`, `01.2.3.4`,
+`1.2.3.00`, `1.2.3.0255`, `1.2.3` are names -/
+example : ip4Looking [49,46,50,46,51,46,50,53,53] = true ∧ ip4Looking [48,46,48,46,48,46,48] = true ∧
+    ip4Looking [49,46,50,46,51,46,50,53,54] = false ∧ ip4Looking [48,49,46,50,46,51,46,52] = false ∧
+    ip4Looking [49,46,50,46,51,46,48,48] = false ∧ ip4Looking [49,46,50,46,51,46,48,50,53,53] = false ∧
+    ip4Looking [49,46,50,46,51] = false := by decide
+
 /-- `CoAp://H:0080/%7e?` is accepted (host lower-cased, port kept with the remote as written) and
-is in the scope of `C16_uri_opts_uri_partial` -/
+falls under the first alternative of `C16_uri_opts_uri` -/
 def exText : Bytes := [67,111,65,112,58,47,47,72,58,48,48,56,48,47,37,55,101,63]
 
 def exTextOpts : Opts :=
   { scheme := [99,111,97,112], hostinfo := [72,58,48,48,56,48], uriHost := some [104],
     uriPort := none, path := [[126]], query := [] }
 
-example : exText.wf ∧ BracketLeads exText ∧ setRequestUri exIp exText = .ok exTextOpts ∧
-    NotIpText exIp [104] := by
-  refine ⟨by decide, ?_, ?_, ⟨by decide, by decide⟩⟩
-  · intro h; exact absurd h (by decide)
+example : exText.wf ∧ setRequestUri exIp exText = .ok exTextOpts ∧ NotIpText exIp [104] := by
+  refine ⟨by decide, ?_, ⟨by decide, by decide⟩⟩
   · simp [setRequestUri, urlsplit, splitAuthority, splitScheme, schemeOk, sanitise, before, after,
       takeUntil, dropUntil, isUnsafeWs, isC0Space, exText, isSchemeChar, isAlpha, isUpper, isLower,
       isDigit, asciiLower, lowerChar, isNetlocDelim, bracketsOk, fromParsed, coapSchemes,
       hostnameOf, rawHostname, hostinfoOf, afterLast, lowerUntilPct, hasUserinfo, beforeLast,
       decodePath, decodeQuery, splitOn, decodeSegs, unquoteStrict, portOf, rawPort, allDigits,
-      decToNat, undecidedHostinfo, ip4Looking, utf8Valid, exTextOpts,
+      decToNat, undecidedHostinfo, ip4Looking, utf8Valid, exTextOpts, literalOk,
       unquote_escape (a := 55) (b := 101) (x := 7) (y := 14) [] (by decide) (by decide), unquote_nil,
       unquote_cons_ne (c := 104) [] (by decide)]
 
-/-- the hypothesis `hname` cannot be dropped: the options of `coap://%31.2.3.4/` (Uri-Host
-"1.2.3.4", remote `%31.2.3.4`) compose to `coap://1.2.3.4/`, which decomposes *without* Uri-Host -/
+/-- the second alternative of `C16_uri_opts_uri` is not empty and cannot be merged into the first:
+the options of `coap://%31.2.3.4/` (Uri-Host "1.2.3.4", remote `%31.2.3.4`) compose to
+`coap://1.2.3.4/`, which decomposes *without* Uri-Host -/
 def exIpTextOpts : Opts :=
   { scheme := [99,111,97,112], hostinfo := [37,51,49,46,50,46,51,46,52],
     uriHost := some [49,46,50,46,51,46,52], uriPort := none, path := [], query := [] }
+
+example : ¬ NotIpText exIp [49,46,50,46,51,46,52] := by
+  intro h; exact absurd h.1 (by decide)
 
 example : getRequestUri exIp exIpTextOpts = some [99,111,97,112,58,47,47,49,46,50,46,51,46,52,47] ∧
     setRequestUri exIp [99,111,97,112,58,47,47,49,46,50,46,51,46,52,47]
@@ -413,7 +544,7 @@ def exIp4 : Resource :=
 
 example : exIp6.WF exIp :=
   { scheme := by decide
-    host := ⟨by decide, by decide, by decide, by decide, by decide⟩
+    host := ⟨by decide, by decide, by decide, by decide, by decide, by decide⟩
     port := by intro p hp; cases hp; decide
     path := ⟨by decide, by decide⟩
     query := ⟨by decide, by decide⟩ }
